@@ -308,6 +308,12 @@ where
         if remainder_poly.len() > max_degree_plus_1 {
             return Err(VerifierError::RemainderDegreeMismatch(max_degree_plus_1 - 1));
         }
+        // make sure the remainder polynomial is the one the prover committed to (and which was
+        // absorbed into the public coin) before the query positions were drawn
+        let remainder_commitment = <H as ElementHasher>::hash_elements(&remainder_poly);
+        if self.layer_commitments.last() != Some(&remainder_commitment) {
+            return Err(VerifierError::RemainderCommitmentMismatch);
+        }
         let offset: E::BaseField = self.options().domain_offset();
 
         for (&position, evaluation) in positions.iter().zip(evaluations) {
